@@ -262,8 +262,34 @@ def structural():
     return res
 
 
+def h_export(I):
+    """ModelData.as_dict on parameters with and without an output converter, hidden and None-input parameters"""
+    from collections import OrderedDict
+    from andes.core.model.modeldata import ModelData
+    k = I.arr('k0', 'k1')
+    vin = I.arr('vin0', 'vin1')
+    conv = lambda item: item * 3 + 1                                   # noqa: E731  (stands for list_oconv & co.)
+    mk = lambda **kw: types.SimpleNamespace(**kw)                      # noqa: E731
+    md = mk(n=2, params=OrderedDict([
+        ('plain', mk(export=True, v=vin * k, vin=vin.copy(), oconvert=None)),
+        ('conv', mk(export=True, v=vin * k, vin=vin.copy(), oconvert=conv)),
+        ('hidden', mk(export=False, v=vin * k, vin=vin.copy(), oconvert=None)),
+        ('novin', mk(export=True, v=vin * k, vin=None, oconvert=None))]))
+    a = ModelData.as_dict(md, vin=True)
+    b = ModelData.as_dict(md, vin=False)
+    out = [('export: uid column and hidden parameters', list(a['uid']) == [0, 1] and 'hidden' not in a and 'hidden' not in b)]
+    for d in range(2):
+        out.append((f'export(vin=True) writes the input-base value of device {d}, converted when the parameter has an output converter',
+                    AND(EQ(a['plain'][d], vin[d], tol=0.0), EQ(a['conv'][d], conv(vin[d])), EQ(a['novin'][d], vin[d] * k[d], tol=0.0))))
+        out.append((f'export(vin=False) writes the system-base value of device {d}, converted when the parameter has an output converter',
+                    AND(EQ(b['plain'][d], vin[d] * k[d], tol=0.0), EQ(b['conv'][d], conv(vin[d] * k[d])))))
+    return out
+
+
 def job(spec):
     kind, arg = spec
+    if kind == 'export':
+        return H.run('ModelData.as_dict', h_export, region=lambda v, c: c.split(' of device')[0])
     if kind == 'pu':
         return H.run(f'System.calc_pu_coeff[{arg[0]},own bases={arg[1]}]', h_calc_pu(*arg), timeout_ms=20000,
                      region=lambda v, c: c.split(':')[0])
@@ -304,7 +330,7 @@ def main():
     if not thorough:
         seqs = [s for i, s in enumerate(seqs) if (i + core.seed()) % 2 == 0]
     jobs += [('seq', s) for s in seqs]
-    jobs += [('tc', o) for o in ('alter_v', 'alter_vin', 'set_v')] + [('struct', 0)]
+    jobs += [('tc', o) for o in ('alter_v', 'alter_vin', 'set_v')] + [('struct', 0), ('export', 0)]
     ck.merge(core.pmap(job, jobs))
     ck.sample({'sequence': 'alter_v@0 > alter_vin@1', 'claim': 'v = vin*k, export = altered vin'})
     ck.finish()
